@@ -27,7 +27,7 @@ ASSUMPTIONS = [
 ]
 
 HERE = os.path.dirname(os.path.abspath(__file__))
-ARGLISTS = ["none", "text", "dict+children", "kwargs", "mixed", "empty-dict", "attrs-object"]
+ARGLISTS = ["none", "text", "dict+children", "kwargs", "mixed", "empty-dict", "attrs-object", "kw-order"]
 WS = ["default", True, False]
 BAD_WS = [None, 0, 1, "yes", ""]
 
@@ -67,6 +67,9 @@ def args_for(kind):
         return ({"id": "i"}, "t", ["u", 3]), {}
     if kind == "kwargs":
         return (Tag("b", "c"), None), {"class_": "c", "data_x": True}
+    if kind == "kw-order":
+        return ("c",), {"class_": "c", "href": "/p", "id": "i", "src": "s.png", "title": "t", "type": "x", "name": "n",
+                        "value": "v", "for_": "f", "style": "a:b;", "alt": "", "hidden": True}
     if kind == "empty-dict":
         return ({}, "x", {}), {}
     if kind == "attrs-object":
